@@ -429,6 +429,8 @@ func (x *X) Sexp() string {
 		}
 	case "var":
 		return x.Name
+	case "opq":
+		return ZooLeafOf(x).Src
 	case "ptr":
 		return "#"
 	case "un":
